@@ -936,7 +936,7 @@ func hKeyCoq(in *interner, k model.ConfigKey) string {
 	if !ok {
 		ns = 9
 	}
-	return vlib.Rec("kk", "K_"+k.Kind.String(), "kns", vlib.NI(ns), "kname", vlib.NI(in.id(k.Name)))
+	return vlib.App("ky", "K_"+k.Kind.String(), vlib.NI(ns), vlib.NI(in.id(k.Name)))
 }
 
 func sortedKeys(s map[model.ConfigKey]struct{}) []model.ConfigKey {
@@ -951,6 +951,7 @@ func sortedKeys(s map[model.ConfigKey]struct{}) []model.ConfigKey {
 // eventsOf prints the captured requests as Spec.event list, keys restricted to keep (nil = all).
 func eventsOf(in *interner, group []*model.PushRequest, keep map[model.ConfigKey]struct{}) (string, []string) {
 	var evs, human []string
+	seen := map[string]bool{}
 	for _, r := range group {
 		var ks []string
 		var hk []string
@@ -976,8 +977,12 @@ func eventsOf(in *interner, group []*model.PushRequest, keep map[model.ConfigKey
 			case model.ServiceUpdate:
 				rn = "RServiceUpdate"
 			}
-			evs = append(evs, vlib.Rec("ev_keys", vlib.List(ks), "ev_reason", rn))
+			e := vlib.App("ev", vlib.List(ks), rn)
 			human = append(human, fmt.Sprintf("%v/%s", hk, t))
+			if !seen[e] { // merge_events is idempotent in identical events
+				seen[e] = true
+				evs = append(evs, e)
+			}
 		}
 	}
 	return vlib.List(evs), human
@@ -998,12 +1003,12 @@ func hProxyCoq(p *model.Proxy) string {
 	if !ok {
 		ns = 9
 	}
-	return vlib.Rec("ptype", ntNames[p.Type], "cfg_ns", vlib.NI(ns), "is_ew", "false", "gw_changed", vlib.B(gwChanged(p)))
+	return vlib.App("px", ntNames[p.Type], vlib.NI(ns), vlib.B(gwChanged(p)))
 }
 
 // ---------------------------------------------------------------- sessions
 
-const hBlock = 4000 // case ids reserved per session (replay can skip whole sessions)
+const hBlock = 400 // case ids reserved per session (replay can skip whole sessions)
 
 type hStats struct {
 	info                                         []string
@@ -1052,6 +1057,7 @@ type sessionCfg struct {
 	World    func() (*world, error) // nil = random world
 	Script   []scriptOp             // non-nil = these single changes instead of random ones (Steps = len)
 	Finding  string                 // every failing case of this (scripted) session is this known finding
+	Rules    bool                   // seed several DestinationRules on one host (seedRules)
 }
 
 func runSession(c *vlib.Collector, base int, r *vlib.Rand, sc sessionCfg, st *hStats) (err error) {
@@ -1063,6 +1069,9 @@ func runSession(c *vlib.Collector, base int, r *vlib.Rand, sc sessionCfg, st *hS
 		w, err = sc.World()
 	} else {
 		w, err = genWorld(r)
+		if err == nil && sc.Rules {
+			err = seedRules(w, r)
+		}
 	}
 	if err != nil {
 		return err
@@ -1152,7 +1161,9 @@ func runSession(c *vlib.Collector, base int, r *vlib.Rand, sc sessionCfg, st *hS
 			}
 		}
 		pcLive, pcFull := live.s.Env().PushContext(), live.fullContext()
+		single := nops == 1 && len(groups) == 1
 		for ci, cl := range live.clients {
+			cid := next()
 			after, err := live.fresh(cl.spec)
 			if err != nil {
 				return err
@@ -1165,110 +1176,141 @@ func runSession(c *vlib.Collector, base int, r *vlib.Rand, sc sessionCfg, st *hS
 			if err != nil {
 				return err
 			}
-			for x := 0; x < nX; x++ {
-				cid := next()
-				if x == xNDS && !cl.spec.NDS {
-					continue
-				}
-				eq, d1 := sameRes(dLive[x], dFull[x], false)
-				heq, d2 := sameRes(cl.res[x], dFull[x], false)
-				sample := map[string]any{"kind": "ctxeq", "xds": xName[x], "proxy": cl.spec.Name, "step": step, "ops": opsShort(ops),
-					"partial_ctx_equals_full_ctx": eq, "held_equals_full_ctx": heq}
-				if !eq {
-					sample["partial_vs_full"] = d1
-					sample["partial_vs_full_detail"] = firstDiff(x, dLive[x], dFull[x])
-				}
-				if !heq {
-					sample["held_vs_full"] = d2
-					sample["held_vs_full_detail"] = firstDiff(x, cl.res[x], dFull[x])
-				}
-				if !eq || !heq {
-					sample["history"] = append([]string(nil), history...)
-					st.suspect("CtxEq id=%d %s %s step=%d %v: partial-vs-full[%s | %v] held-vs-full[%s | %v]", cid, xName[x], cl.spec.Name, step, opsShort(ops),
-						d1, sample["partial_vs_full_detail"], d2, sample["held_vs_full_detail"])
-				}
-				c.Add(vlib.Case{ID: cid, Term: vlib.App("CtxEq", vlib.NI(cid), xName[x], ntNames[cl.spec.Type], vlib.NI(nchanges), vlib.B(eq), vlib.B(heq)),
-					Tags: []string{"ctxeq", "ctxeq:x=" + xName[x], "ctxeq:nt=" + string(cl.spec.Type)}, Sample: sample})
-				c.Hyp("H_field", 1)
-			}
 			p := live.proxyOf(cl)
 			if p == nil {
 				return fmt.Errorf("no server-side proxy for %s", cl.spec.Name)
 			}
-			single := nops == 1 && len(groups) == 1
 			var preq *model.PushRequest
 			pneeds := false
 			if single {
 				preq, pneeds = xds.DefaultProxyNeedsPush(p, merged)
 			}
+			sample := map[string]any{"kind": "hstep", "proxy": cl.spec.Name, "ops": opsDesc(ops), "step": step, "pushes": len(groups)}
+			tags := []string{"hstep:nt=" + string(cl.spec.Type)}
+			var kk kind.Kind
+			if single {
+				kk = ops[0].Key.K
+				sample["proxy_needs_push"] = pneeds
+				tags = append(tags, "hdep", "hdep:kind="+kk.String())
+				if !pneeds {
+					tags = append(tags, "hdep:proxy-filtered")
+				}
+			} else {
+				tags = append(tags, "hbatch", fmt.Sprintf("hbatch:ops=%d", nops), fmt.Sprintf("hbatch:pushes=%d", len(groups)))
+			}
+			var xos []string
+			bad, trivial := false, true
+			per := map[string]any{}
 			for x := 0; x < nX; x++ {
-				cid := next()
 				if x == xNDS && !cl.spec.NDS {
 					continue
 				}
 				onlyCommon := x == xEDS || x == xRDS
 				equal, d1 := sameRes(prev[ci][x], after[x], onlyCommon)
+				// resource granularity: what was not resent in this round must not have changed
+				notResentB, notResentA := map[string][]byte{}, map[string][]byte{}
+				for n, v := range prev[ci][x] {
+					if !cl.gotNames[x][n] {
+						notResentB[n] = v
+					}
+				}
+				for n, v := range after[x] {
+					if !cl.gotNames[x][n] {
+						notResentA[n] = v
+					}
+				}
+				narrow, dn := sameRes(notResentB, notResentA, true)
 				heldOK, d2 := sameRes(cl.res[x], after[x], false)
+				ctxEq, d3 := sameRes(dLive[x], dFull[x], false)
+				heldFull, d4 := sameRes(cl.res[x], dFull[x], false)
 				sent := cl.gotType[x]
-				sample := map[string]any{"kind": "hdep", "xds": xName[x], "proxy": cl.spec.Name, "ops": opsDesc(ops), "sent": sent,
-					"equal_before_after": equal, "held_equals_forced": heldOK, "step": step}
+				decided := false
+				if single {
+					decided = pneeds && decide(x, preq, p)
+				}
+				o := map[string]any{"sent": sent}
+				if single {
+					o["decided_push"] = decided
+				}
+				if sent && (x == xEDS || x == xRDS) {
+					o["resent"] = len(cl.gotNames[x])
+					o["held"] = len(cl.res[x])
+				}
 				if !equal {
-					sample["before_vs_after"] = d1
-					sample["before_vs_after_detail"] = firstDiff(x, prev[ci][x], after[x])
+					o["before_vs_after"] = d1
+					o["before_vs_after_detail"] = firstDiff(x, prev[ci][x], after[x])
+				}
+				if !narrow {
+					o["NOT_RESENT_BUT_CHANGED"] = dn
+					o["not_resent_detail"] = firstDiff(x, notResentB, notResentA)
 				}
 				if !heldOK {
-					sample["held_vs_forced"] = d2
-					sample["held_vs_forced_detail"] = firstDiff(x, cl.res[x], after[x])
-					sample["history"] = history
+					o["HELD_vs_forced"] = d2
+					o["held_vs_forced_detail"] = firstDiff(x, cl.res[x], after[x])
 				}
-				tags := []string{"hdep", "hdep:x=" + xName[x], "hdep:nt=" + string(cl.spec.Type)}
+				if !ctxEq {
+					o["PARTIAL_CTX_vs_full_ctx"] = d3
+					o["partial_vs_full_detail"] = firstDiff(x, dLive[x], dFull[x])
+				}
+				if !heldFull {
+					o["HELD_vs_full_ctx"] = d4
+					o["held_vs_full_detail"] = firstDiff(x, cl.res[x], dFull[x])
+				}
+				per[xName[x]] = o
+				okx := (sent || equal) && narrow && heldOK && ctxEq && heldFull
 				if single {
-					decided := pneeds && decide(x, preq, p)
-					var keep map[model.ConfigKey]struct{}
-					if pneeds {
-						keep = preq.ConfigsUpdated
-					}
-					evs, human := eventsOf(in, group, keep)
-					sample["requests"] = human
-					sample["proxy_needs_push"] = pneeds
-					sample["decided_push"] = decided
-					k := ops[0].Key.K
-					tags = append(tags, "hdep:kind="+k.String())
+					okx = okx && (decided || equal)
+					c.Hyp("H_dep", 1)
 					switch {
 					case !decided && equal:
 						st.skipEqual++
-						tags = append(tags, "hdep:skip,unchanged")
+						c.Tag("hdep:skip,unchanged")
 					case !decided && !equal:
 						st.skipDiffer++
-						tags = append(tags, "hdep:skip,CHANGED")
+						c.Tag("hdep:skip,CHANGED")
 					case decided && equal:
 						st.pushEqual++
-						tags = append(tags, "hdep:push,unchanged")
+						c.Tag("hdep:push,unchanged")
 					default:
 						st.pushDiffer++
-						tags = append(tags, "hdep:push,changed")
+						c.Tag("hdep:push,changed")
 					}
-					if !pneeds {
-						tags = append(tags, "hdep:proxy-filtered")
+					if !(decided && equal) {
+						trivial = false
 					}
-					term := vlib.App("HDep", vlib.NI(cid), vlib.B(scoped), vlib.B(jwks), "0%N", xName[x], "K_"+k.String(), evs, hProxyCoq(p),
-						vlib.B(pneeds), vlib.B(decided), vlib.B(sent), vlib.B(equal), vlib.B(heldOK))
-					c.Add(vlib.Case{ID: cid, Term: term, Tags: tags, Sample: sample, Trivial: decided && equal})
-					c.Hyp("H_dep", 1)
-					if !((decided || equal) && (sent || equal) && heldOK) {
-						st.suspect("HDep id=%d %s %s %s decided=%v sent=%v equal=%v held=%v reqs=%v | %v | %v", cid, xName[x], cl.spec.Name, ops[0], decided, sent, equal, heldOK,
-							human, sample["before_vs_after_detail"], sample["held_vs_forced_detail"])
-					}
-				} else {
-					tags = append(tags, "hbatch", fmt.Sprintf("hbatch:ops=%d", nops), fmt.Sprintf("hbatch:pushes=%d", len(groups)))
-					term := vlib.App("HBatch", vlib.NI(cid), xName[x], ntNames[cl.spec.Type], vlib.NI(nops), vlib.B(sent), vlib.B(equal), vlib.B(heldOK))
-					c.Add(vlib.Case{ID: cid, Term: term, Tags: tags, Sample: sample, Trivial: sent && equal})
-					if !((sent || equal) && heldOK) {
-						st.suspect("HBatch id=%d %s %s %v sent=%v equal=%v held=%v | %v | %v", cid, xName[x], cl.spec.Name, opsShort(ops), sent, equal, heldOK,
-							sample["before_vs_after_detail"], sample["held_vs_forced_detail"])
-					}
+				} else if !(sent && equal) {
+					trivial = false
 				}
+				if x == xEDS && sent && len(cl.gotNames[x]) < len(cl.res[x]) {
+					c.Tag("eds:partial-push")
+					c.Hyp("H_eds_affected", len(cl.res[x])-len(cl.gotNames[x]))
+				}
+				c.Hyp("H_field", 1)
+				if !okx {
+					bad = true
+					st.suspect("%s id=%d %s %s step=%d %v decided=%v sent=%v equal=%v narrow=%v held=%v ctx=%v heldfull=%v | %v | %v | %v | %v", map[bool]string{true: "HStep", false: "HBatch"}[single],
+						cid, xName[x], cl.spec.Name, step, opsShort(ops), decided, sent, equal, narrow, heldOK, ctxEq, heldFull,
+						o["before_vs_after_detail"], o["not_resent_detail"], o["held_vs_forced_detail"], o["partial_vs_full_detail"])
+				}
+				xos = append(xos, vlib.App("XO", xName[x], vlib.B(decided), vlib.B(sent), vlib.B(equal), vlib.B(narrow), vlib.B(heldOK), vlib.B(ctxEq), vlib.B(heldFull)))
 			}
+			sample["per_type"] = per
+			if bad {
+				sample["history"] = append([]string(nil), history...)
+			}
+			var term string
+			if single {
+				var keep map[model.ConfigKey]struct{}
+				if pneeds {
+					keep = preq.ConfigsUpdated
+				}
+				evs, human := eventsOf(in, group, keep)
+				sample["requests"] = human
+				term = vlib.App("HStep", vlib.NI(cid), vlib.B(scoped), vlib.B(jwks), "0%N", "K_"+kk.String(), evs, hProxyCoq(p), vlib.B(pneeds), vlib.List(xos))
+			} else {
+				term = vlib.App("HBatch", vlib.NI(cid), ntNames[cl.spec.Type], vlib.NI(nops), vlib.List(xos))
+			}
+			c.Add(vlib.Case{ID: cid, Term: term, Tags: tags, Sample: sample, Trivial: trivial})
 			prev[ci] = after
 		}
 	}
@@ -1279,6 +1321,7 @@ func runSession(c *vlib.Collector, base int, r *vlib.Rand, sc sessionCfg, st *hS
 	}
 	defer fresh.close()
 	for _, cl := range live.clients {
+		cid := next()
 		want, err := fresh.fresh(cl.spec)
 		if err != nil {
 			return err
@@ -1287,31 +1330,36 @@ func runSession(c *vlib.Collector, base int, r *vlib.Rand, sc sessionCfg, st *hS
 		if err != nil {
 			return err
 		}
+		sample := map[string]any{"kind": "converge", "proxy": cl.spec.Name, "changes": nchanges, "mode": sc.Mode}
+		var cvs []string
+		bad := false
 		for x := 0; x < nX; x++ {
-			cid := next()
 			if x == xNDS && !cl.spec.NDS {
 				continue
 			}
 			eq, d := sameRes(cl.res[x], want[x], false)
 			eq2, d2 := sameRes(again[x], want[x], false)
-			sample := map[string]any{"kind": "converge", "xds": xName[x], "proxy": cl.spec.Name, "changes": nchanges, "mode": sc.Mode,
-				"held_equals_fresh_control_plane": eq, "new_client_on_live_equals_fresh_control_plane": eq2}
 			if !eq {
-				sample["held_vs_fresh"] = d
-				sample["held_vs_fresh_detail"] = firstDiff(x, cl.res[x], want[x])
+				sample[xName[x]+":HELD_vs_fresh_control_plane"] = d
+				sample[xName[x]+":held_vs_fresh_detail"] = firstDiff(x, cl.res[x], want[x])
 			}
 			if !eq2 {
-				sample["new_vs_fresh"] = d2
-				sample["new_vs_fresh_detail"] = firstDiff(x, again[x], want[x])
+				sample[xName[x]+":NEW_CLIENT_vs_fresh_control_plane"] = d2
+				sample[xName[x]+":new_vs_fresh_detail"] = firstDiff(x, again[x], want[x])
 			}
 			if !eq || !eq2 {
-				sample["history"] = history
+				bad = true
 				st.suspect("Converge id=%d %s %s mode=%s: held-vs-fresh[%s | %v] new-vs-fresh[%s | %v]", cid, xName[x], cl.spec.Name, sc.Mode,
-					d, sample["held_vs_fresh_detail"], d2, sample["new_vs_fresh_detail"])
+					d, sample[xName[x]+":held_vs_fresh_detail"], d2, sample[xName[x]+":new_vs_fresh_detail"])
 			}
-			c.Add(vlib.Case{ID: cid, Term: vlib.App("Converge", vlib.NI(cid), xName[x], ntNames[cl.spec.Type], vlib.NI(nchanges), vlib.B(eq), vlib.B(eq2)),
-				Tags: []string{"converge", "converge:x=" + xName[x], "converge:nt=" + string(cl.spec.Type), "converge:mode=" + sc.Mode}, Sample: sample})
+			c.Tag("converge:x=" + xName[x])
+			cvs = append(cvs, vlib.App("CV", xName[x], vlib.B(eq), vlib.B(eq2)))
 		}
+		if bad {
+			sample["history"] = history
+		}
+		c.Add(vlib.Case{ID: cid, Term: vlib.App("Converge", vlib.NI(cid), ntNames[cl.spec.Type], vlib.NI(nchanges), vlib.List(cvs)),
+			Tags: []string{"converge", "converge:nt=" + string(cl.spec.Type), "converge:mode=" + sc.Mode}, Sample: sample})
 	}
 	if id-base >= hBlock {
 		return fmt.Errorf("session used %d ids, block is %d", id-base, hBlock)
@@ -1338,10 +1386,14 @@ func opsDesc(ops []wop) []string {
 var hKinds = []kind.Kind{kind.ServiceEntry, kind.VirtualService, kind.DestinationRule, kind.Sidecar, kind.Gateway, kind.PeerAuthentication,
 	kind.RequestAuthentication, kind.AuthorizationPolicy, kind.EnvoyFilter, kind.Telemetry, kind.ProxyConfig, kind.WorkloadGroup}
 
+// delta-aware kinds dominate (canSendPartialFullPushes): DestinationRule alone in a push => partial EDS push
+var ruleKinds = []kind.Kind{kind.DestinationRule, kind.DestinationRule, kind.DestinationRule, kind.DestinationRule, kind.DestinationRule,
+	kind.DestinationRule, kind.ServiceEntry, kind.ServiceEntry, kind.PeerAuthentication, kind.VirtualService, kind.Sidecar, kind.AuthorizationPolicy}
+
 // genH runs the (H) sessions and the end-to-end sessions; ids are allocated in blocks of hBlock per session.
 func genH(t *testing.T, c *vlib.Collector, id *int) {
 	r := vlib.NewRand(vlib.Seed() ^ 0xc01f)
-	c.Rule += " HDep/HBatch/Converge/CtxEq: generated worlds (ServiceEntries with endpoints, VirtualService, DestinationRule, Sidecar, Gateway, " +
+	c.Rule += " HStep/HBatch/Converge (one case per push and proxy, all xDS types inside): generated worlds (ServiceEntries with endpoints, VirtualService, DestinationRule, Sidecar, Gateway, " +
 		"Peer/RequestAuthentication, AuthorizationPolicy, EnvoyFilter, Telemetry, ProxyConfig, WorkloadGroup in root/own/other namespace) on a fake discovery " +
 		"server with long-lived SotW ADS clients (sidecar ns1, router ns1, sidecar ns2); each step applies random create/update/delete, captures the real " +
 		"controllers' push requests, merges them like debounce and runs the real Push; non-trivial HDep = the real decision skipped the type or the " +
@@ -1354,10 +1406,19 @@ func genH(t *testing.T, c *vlib.Collector, id *int) {
 	st := &hStats{}
 	sessions := make([]sessionCfg, 0, nH+nConv)
 	for i := 0; i < nH; i++ {
-		sessions = append(sessions, sessionCfg{Mode: "h", Steps: vlib.Scale(24, 32), Specs: nodeSpecs, FocusK: hKinds})
+		sc := sessionCfg{Mode: "h", Steps: vlib.Scale(24, 32), Specs: nodeSpecs, FocusK: hKinds}
+		if i%2 == 1 {
+			// every other session: several DestinationRules per host, changes concentrated on the kinds a partial EDS push handles
+			sc.Rules, sc.FocusK = true, ruleKinds
+		}
+		sessions = append(sessions, sc)
 	}
 	for i := 0; i < nConv; i++ {
-		sessions = append(sessions, sessionCfg{Mode: "conv", Steps: vlib.Scale(8, 12), Specs: nodeSpecs, FocusK: hKinds, SplitPct: 40})
+		sc := sessionCfg{Mode: "conv", Steps: vlib.Scale(8, 12), Specs: nodeSpecs, FocusK: hKinds, SplitPct: 40}
+		if i%3 == 2 {
+			sc.Rules, sc.FocusK = true, ruleKinds
+		}
+		sessions = append(sessions, sc)
 	}
 	// last: the scripted reproducer of the former finding C01-envoyfilter-merge-mutates-shared-default (repaired in /repo
 	// f7db64b: pkg/proto/merge no longer merges into shared well-known-type values in place). It is an ordinary session now:
